@@ -19,9 +19,9 @@ CLAIMED = {
  "C02": E("proof", "§7 C02", "Theorems: the span reported by the backtracker model on the compiled NFA is a match of the AST, starts at the leftmost start with any match, and none iff nothing matches (composition of compile_lang with btSearchAt_sound/leftmost); the Pike VM model returns exactly the backtracker's span (pike_search_eq_bt: ordered-thread simulation = priority DFS). Ties: C14 drives every engine on dumped NFAs against this reference; Find/FindIndex/FindString/FindStringIndex/FindReaderIndex are compared with regexp end-to-end.",
    "Partial: equality of the automaton's priority order with regexp's is validated by correspondence; the reverse/bidirectional strategies are not modelled (open findings).",
    "Lean 4 theorems (leftmost start, Pike = priority DFS) + differential against regexp"),
- "C03": E("proof", "§7 C03", "Capture positions: reference = first accepting path of the priority DFS with slot writes (Lean), Pike VM capture search and one-pass DFA models tied to the real engines on dumped NFAs; FindSubmatch* family compared with regexp end-to-end, group count = NumSubexp()+1.",
-   "Partial: see evidence for which capture theorems are discharged in this run; end-to-end defects are open findings.",
-   "Lean 4 models of capture engines + engine-level correspondence + differential against regexp"),
+ "C03": E("proof", "§7 C03", "Reference = the slot vector written along the first accepting path of the priority DFS over the compiled NFA (Caps.btCaps; its group 0 is the C02 reference). Theorems: reference well-formed (n slots, groups unset or nested inside the match); the Pike VM with per-state slot tables (transliterated from nfa/pikevm.go + slot_table.go) returns exactly the reference for every NFA the compiler emits, every haystack, every start offset at <= len; the one-pass DFA (builder, closure in priority order, match-wins flags, end-look handling, flat table, search loop — transliterated from dfa/onepass) returns exactly the anchored reference whenever it is built (sound AND complete, no restriction on where the match ends). Ties, every run: both models vs the real engines on dumped NFAs (every at; build accept/reject; Search), the real engines vs the reference, the Lean transliteration of regexp's own backtracker (Cx.GoRef on syntax.Prog) vs the real regexp (spec validation), and the five FindSubmatch APIs vs regexp end to end.",
+   'Partial: the copy-on-write capture path (SearchWithCapturesInSpan) and SearchLongest captures are tied by correspondence only; the dispatch around the engines is checked end to end; defects there are open findings keyed by (strategy, primary feature).',
+   'Lean 4 theorems (Pike slot-table captures = priority DFS; one-pass DFA = reference) + model ties on dumped NFAs + spec validation + differential against regexp'),
  "C04": E("proof", "§7 C04", "Theorems (Lean, all inputs): each hand-written enumeration loop of coregex, modelled over an abstract single-match function, returns exactly what regexp's allMatches returns, for every input length, rune-width function and limit n (C04_findAllIndicesLoop, C04_count_loop, C04_iterator, C04_anchored_shortcut, C04_limit_is_prefix, C04_enumeration_wellformed). Tie: the real engine's FindIndicesAt/FindSubmatchAt table is recorded at every offset and the Lean loop models, run over it, must reproduce every enumeration API's output; a case is a violation only if the API also differs from regexp.",
    "Hypotheses FindOK/WidthOK are checked on every recorded table (the engine contract itself is C02's subject). Open findings: C04-*.",
    "Lean 4 theorems over loop models + recorded-table correspondence"),
@@ -52,12 +52,12 @@ CLAIMED = {
  "C13": E("proof", "§7 C13", "Theorems for every history: after any sequence of searches of any sizes, bumps and markings (across the uint16 wrap and re-slicing) a new search sees no visited entry; marking is exact; a cache clear returns the accounting to that of a new cache. Ties: visited model vs BacktrackerState over 70 000 calls; reuse across the generation wrap vs fresh state; lazy DFA reused cache vs fresh cache; aged Regex vs fresh Regex call by call with GC in between.",
    "The lazy DFA's transition memo is not modelled; its history dependence for look-around patterns is an open finding.",
    "Lean 4 invariants over operation sequences + history correspondence"),
- "C14": E("proof", "§7 C14", "Theorems: the bounded-backtracker model is sound and complete for the NFA path relation (boolean search with a shared visited set; span search: accepted span, leftmost start, none iff no match); the Pike VM model equals it (isMatch iff, search = priority DFS, longest). The models are the executable reference: PikeVM (5 entry points incl. longest), the real backtracker (*WithState, reused state) and the lazy DFA (8 cache/clear configurations incl. caches too small for one state) are driven directly on NFAs dumped from the code, over exhaustive short haystacks of byte-class representatives plus pattern-derived haystacks, every start offset.",
-   "The lazy DFA is not modelled; it is compared with the proved reference; its look-around and lazy-quantifier defects are open findings (C14-dfa-*).",
-   "Lean 4 theorems (memoised DFS = NFA path relation; Pike = DFS) + engine-level correspondence on dumped NFAs"),
- "C15": E("proof", "§7 C15", "Per class instance, a Lean-executed checker decides for EVERY code point and every ill-formed string of ≤2 bytes (3 over boundary bytes) that the compiled byte automaton accepts exactly the UTF-8 of the class members (all three compilation modes); theorems: decode∘encode = id on scalar values, a decode step consumes the encoding of its rune or one byte, stays inside the input. Inventory: Perl/POSIX/Unicode classes, negations, boundary ranges, folded literals/classes, dot, random unions.",
-   "The quantifier over runes is discharged by exhaustive enumeration inside the checker (exhaustive: true), the quantifier over classes is sampled. Behaviour inside concatenations on ill-formed input is an open finding.",
-   "Lean 4 UTF-8 theorems + exhaustive verified class checker on dumped NFAs"),
+ "C14": E("proof", "§7 C14", "Theorems: the bounded-backtracker model is sound and complete for the NFA path relation; the Pike VM model equals it (isMatch iff, search = priority DFS, longest); the lazy-DFA model (closure, move with break-at-match, start states, cache insert / clear-and-rebuild / give-up, acceleration, unrolled loop — transliterated from dfa/lazy) returns, for look-free automata, the reference's END for EVERY cache capacity (also one too small for any state), every clear limit and every history of earlier calls on the same cache, or hands over to the NFA (memoisation is invisible). Ties, every run: PikeVM (5 entry points), the real backtracker (reused state) and the lazy DFA (8 cache/clear configurations) are driven directly on NFAs dumped from the code against the reference, over exhaustive short haystacks of byte-class representatives plus pattern-derived haystacks, every start offset; the lazy-DFA model is replayed call by call against the real DFA on one reused cache per configuration.",
+   'For automata with look-around the lazy-DFA theorems do not apply and the code deviates (machine-checked witnesses in C14_dfa_deviations_partial; open findings C14-dfa-*); reverse DFAs and prefilter skipping are not modelled.',
+   'Lean 4 theorems (memoised DFS = NFA path relation; Pike = DFS; lazy DFA with cache = reference) + engine-level correspondence on dumped NFAs'),
+ "C15": E("proof", "§7 C15", "Theorems: decode∘encode = id on scalar values, a decode step consumes the encoding of its rune or one byte; the class compiler (compileCharClass → compileUnicodeClass / compileUnicodeClassLarge → compileUTF8Range, the 1/2/3/4-byte range splitters and continuation-bound helpers, transliterated as the byte-range sequences it emits) accepts, for EVERY rune range with no precondition, exactly the encodings of the scalar values in the range, and for every class exactly the encodings of its members plus two named deviations (lone bytes >= 0x80 for classes containing every non-ASCII rune: deliberate; raw surrogate bytes on the small-class path: a defect, machine-checked and confirmed); the executable class checker is proved to be an exact decision procedure (classCheck = ok iff every scalar value and every enumerated ill-formed string is accepted exactly when regexp's decoding rule says so). Ties, every run: the byte-range sequences along all paths of the automaton the real compiler emitted must equal the model's output literally (inventory + ~500 generated multi-range classes around every encoding boundary); the verified checker sweeps all code points for the inventory (Perl/POSIX/Unicode classes, negations, folded literals/classes, dot, three compilation modes); every non-letter rune of the fold table (all runes in thorough) as (?i:r) against its SimpleFold orbit.",
+   'Dot (compileUTF8Any*, utf8_suffix.go) and fold-case literals are covered by the checker per instance, not by the compiler theorem. Behaviour inside concatenations on ill-formed input is an open finding.',
+   'Lean 4 theorems (UTF-8 range compiler exact for all ranges; verified class checker) + literal translation validation of compiled automata'),
  "C16": E("proof", "§7 C16", "Theorems (slim Teddy model): mask soundness, Find = least offset where a literal occurs, reported match is a real occurrence, reported literal is the first in pattern order for any number of literals (after the fix commit); memmem = naive. Ties: every prefilter implementation (memchr, memmem, slim/fat Teddy, Aho-Corasick, wrappers, digit) vs the naive definition on systematic plants across 16/32/64-byte blocks, near misses, all starts; complete prefilters vs regexp on the source alternation; Teddy vs the Lean model.",
    "Assembly kernels and the Aho-Corasick library are tied by correspondence only.",
    "Lean 4 theorems (fingerprint soundness, find = naive, priority) + systematic correspondence"),
@@ -67,9 +67,9 @@ CLAIMED = {
  "C18": E("proof", "§7 C18", "Theorems (all haystacks, all lengths): the SWAR zero-byte detector is exact at its lowest set bit; memchr/memchr2/memchr3 generic, isASCII generic and the rare-byte memmem loop equal their one-line scalar definitions. Tie: every exported primitive x every length 0..130 (200 thorough) x placement against inaccessible pages (both ends, read-only data) x every hit position, with vector extensions enabled and masked, compared with the scalar definition; a sample replayed through the Lean models.",
    "bv_decide is used for the fixed-width bit-vector lemmas of hasZero (axioms *_native.bv_decide.ax_* listed in evidence). The assembly kernels are not modelled: for them the exhaustive enumeration is the evidence (partial).",
    "Lean 4 theorems (BitVec + induction over chunks) + exhaustive guard-page correspondence"),
- "C19": E("proof", "§7 C19", "Per fast path (char-class searcher incl. streaming enumeration, composite searcher, anchored-literal matcher, branch dispatcher, first-byte filter): Lean transliterations of predicate, constructor and searcher; exactness theorems w.r.t. a reference matcher on explicit fragments, and 'applicability ⇒ fragment' where it holds; decide-checked counterexamples where the predicate accepts more. Ties: models vs real predicates/searchers on templates and all one-node mutations over exhaustive short haystacks; accepted patterns vs the reference matcher.",
-   "Partial: reverse-anchored/suffix/inner strategies are not modelled (covered end-to-end by C01/C02 findings); branch dispatcher and first-byte filter accept more than their fragments (open findings).",
-   "Lean 4 exactness theorems per fast path + mutation-boundary correspondence"),
+ "C19": E("proof", "§7 C19", "Per fast path, a Lean transliteration of predicate, constructor and searcher and an exactness theorem against the reference leftmost-first matcher of the WHOLE pattern: char-class searcher (incl. streaming enumeration), composite searcher (only parser-output invariants RepeatOK/ClassSorted as hypotheses, each shown necessary), branch dispatcher (every accepted pattern; hypotheses FoldSound for the supplied fold table and the reference's depth bound, each shown necessary), anchored-literal matcher (text anchors), first-byte filter. Ties, every run: models vs real predicates/searchers on templates and all one-node mutations (trailing parts, (?i), (?U), lazy, (?m), empty branches, non-ASCII) over exhaustive short haystacks; accepted patterns vs the reference matcher and regexp; the first-byte property on the real code (a non-empty match at offset 0 starts with a byte of a complete set).",
+   'Partial: reverse-anchored/suffix/inner strategies are not modelled (covered end to end by C01/C02); the anchored-literal theorem reads (?m)^/$ as text anchors (counterexample kept).',
+   'Lean 4 exactness theorems per fast path + mutation-boundary correspondence'),
  "C20": E("proof", "§7 C20", "Theorems: cache memory ≤ capacity + one state's worth for every history of inserts and clears; the visited table never exceeds the largest admitted request; a sequential caller never makes the pool allocate after warm-up. Ties: MemoryUsage() after every directly driven search with capacities 1 B..2 MB vs the proved bound; visited length vs MaxVisitedSize; heap held after 1800/3300 searches; AllocsPerRun == 0 for the documented zero-allocation calls on strategy templates.",
    "Partial: escape analysis, map growth and the allocator are measured; zero-allocation failures under DFA-based strategies are an open finding.",
    "Lean 4 accounting invariants + memory/allocation measurement"),
